@@ -21,7 +21,7 @@ RULE = ('sharded: a generated pipeline (filter on/off, one or two stacked exact 
         'process: equal multiset of output batches, equal aggregate, exactly one final AggregateResult; fewer states than expected '
         '=> ValueError; non-trivial = >= 2 workers, >= 2 shards and >= 2 batches per shard (sharded) / a remote stage '
         '(interleaved); distinct = distinct canonical case JSON'
-        "; also: strict merge over two aggregating stages (list and stream), a generated polling delay of the pool's output queue, 130..200 batches, the same definition run twice on the same workers, one-shot sources, hashable definition arguments")
+        "; also: strict merge over two aggregating stages (list and stream), a generated polling delay of the pool's output queue, 130..200 batches, placeholder counts without batch output, the same definition run twice on the same workers, one-shot sources, hashable definition arguments")
 ASSUMPTIONS = [
     'in-process fake transport; real OS threads and asyncio loops: oracles are schedule independent, a 90 s watchdog catches hangs '
     '(re-run before reporting)',
@@ -70,6 +70,10 @@ def run_sharded(case):
       if case['with_batch_output']:
         check(sorted(map(dist.canon, out)) == sorted(map(dist.canon, want_out)), 'distributed-output-differs',
               f'{w}: distributed batches {sorted(map(dist.canon, out))}, in-process {sorted(map(dist.canon, want_out))}')
+      else:
+        # without batch output every batch is still reported, as a None placeholder (like iterate(with_result=False))
+        check(len(out) == len(want_out) and all(x is None for x in out), 'distributed-output-differs',
+              f'{w}: {len(out)} placeholders {out[:5]!r}..., the in-process run has {len(want_out)} batches')
       aggs = [r for r in results if isinstance(r, transform.AggregateResult)]
       check(len(results) == 1 and len(aggs) == 1, 'not-exactly-one-final-aggregate', f'{w}: result queue holds {results!r}')
       check(norm_result(aggs[0].agg_result) == norm_result(want_agg), 'distributed-aggregate-differs',
